@@ -137,7 +137,8 @@ def gen_case(r, given=None, tree_kind=None):
     if "piece_length" in given:
         k = r.random()
         if k < 0.6:
-            v = r.choice([16 * KIB, 32 * KIB, 64 * KIB, 1 << 20])
+            # also above the largest piece length the automatic choice ever makes (16 MiB): an explicit request is recorded as given
+            v = r.choice([16 * KIB, 32 * KIB, 64 * KIB, 1 << 20, 1 << 25, 1 << 26, 1 << 31])
             text = r.choice([str(v), "%dKiB" % (v // KIB), "%dkib" % (v // KIB)])
         elif k < 0.8:
             v = r.choice([1, 2, 256, 1024, 8192])
